@@ -7,22 +7,22 @@ From FV Require Import Core.Syntax Core.Sem Proofs.RewriteP.
 Import ListNotations.
 
 Theorem C09_if_true_wrap :
-  forall callf k s s' en out,
-    exec callf k (SIf (EBool true) s s') en out = exec callf k (SBlock s) en out.
+  forall structs callf k s s' en out,
+    exec structs callf k (SIf (EBool true) s s') en out = exec structs callf k (SBlock s) en out.
 Proof. exact if_true_else_irrelevant. Qed.
 Print Assumptions C09_if_true_wrap.
 
 Theorem C09_literal_as_call :
-  forall p g t z fuel en out,
+  forall structs p g t z fuel en out,
     nth_error p g = Some {| fparams := []; fret := TInt t; fbody := SReturn (Some (ELit t z)) |} ->
-    eval (call p (S fuel)) (ECall g []) en out = eval (call p (S fuel)) (ELit t z) en out.
+    eval structs (call structs p (S fuel)) (ECall g []) en out = eval structs (call structs p (S fuel)) (ELit t z) en out.
 Proof. intros. apply lit_call_local. apply const_fn_returns. assumption. Qed.
 Print Assumptions C09_literal_as_call.
 
 (* side-effect-free subexpressions print nothing, so evaluating them earlier (bound to a fresh immutable local)
    cannot change the order or content of the output *)
 Theorem C09_pure_subexpr_no_output_partial :
-  forall callf e en out v out', callfree e = true -> eval callf e en out = Ok v out' -> out' = out.
+  forall structs callf e en out v out', callfree e = true -> eval structs callf e en out = Ok v out' -> out' = out.
 Proof. exact callfree_no_output. Qed.
 Print Assumptions C09_pure_subexpr_no_output_partial.
 
@@ -30,9 +30,9 @@ Print Assumptions C09_pure_subexpr_no_output_partial.
    equalities to arbitrary program contexts are NOT proved; they are covered by the metamorphic runs only. *)
 
 Theorem C09_nonvacuous :
-  exists callf k s en out r, exec callf k (SIf (EBool true) s SSkip) en out = Ok r out /\ s <> SSkip.
+  exists structs callf k s en out r, exec structs callf k (SIf (EBool true) s SSkip) en out = Ok r out /\ s <> SSkip.
 Proof.
-  exists (fun _ _ _ => Wrong), 1%nat, (SLet 1 (TInt I32) (ELit I32 5%Z)), [[]], [].
+  exists [], (fun _ _ _ => Wrong), 1%nat, (SLet 1 (TInt I32) (ELit I32 5%Z)), [[]], [].
   eexists. split; [vm_compute; reflexivity|discriminate].
 Qed.
 Print Assumptions C09_nonvacuous.
